@@ -318,6 +318,7 @@ fn op_kind(op: &COp) -> &'static str {
         COp::S(Op::UpdateStartTime { .. }) => "update_start_time",
         COp::S(Op::Shuffle { .. }) => "shuffle",
         COp::S(Op::BurnRemaining { .. }) => "burn_remaining",
+        COp::S(Op::Migrate { .. }) => "migrate",
         COp::S(_) => "other",
         COp::MakeWl(_) => "make_whitelist",
         COp::Attach { .. } => "set_whitelist",
@@ -926,6 +927,7 @@ fn run_case_oe(c: &Case) -> CaseResult {
                 Op::Purge { who } => Some(OeOp::Purge { who: who.clone() }),
                 Op::BurnRemaining { who } => Some(OeOp::BurnRemaining { who: who.clone() }),
                 Op::UpdatePerAddressLimit { who, limit } => Some(OeOp::UpdatePerAddressLimit { who: who.clone(), limit: *limit }),
+                Op::Migrate { who, stored } => Some(OeOp::Migrate { who: who.clone(), stored: stored.clone() }),
                 _ => continue,
             },
         };
@@ -1410,6 +1412,20 @@ fn history(rng: &mut Rng, p: &Plan, tag: &str) -> Case {
         ops.push(COp::E(OeOp::UpdateEndTime { who: CREATOR.into(), secs: end + 500, nanos: 0 }));
         ops.push(pm(BUYERS[1], PUB_PRICE));
     }
+    // migrations of the minter at random places (~3 % of the operations), also inside the boundary
+    // probes: a counter lost by a migration lets the "+1" attempt through
+    {
+        let pool = migrate_version_pool();
+        let mut i = 0;
+        while i <= ops.len() {
+            if rng.below(1000) < 30 {
+                let (who, stored) = gen_migrate_args(rng, &pool);
+                ops.insert(i, COp::S(Op::Migrate { who, stored }));
+                i += 1;
+            }
+            i += 1;
+        }
+    }
     Case { tag: tag.into(), variant: p.variant, num_tokens: p.num_tokens, pal: p.pal, price: PUB_PRICE, start_in: START, init_wl, end_in: p.end_in, unlimited: p.unlimited, ops }
 }
 
@@ -1523,6 +1539,73 @@ fn probe_plans() -> Vec<(String, Plan)> {
 /// curated minimal histories (always first)
 fn corpus() -> Vec<Case> {
     let mut v = vec![];
+    // --- a migration of the minter between reaching a limit and the next attempt ---
+    for variant in 0..9usize {
+        let var = fam(variant);
+        let mig = |who: &str, stored: Option<(&str, &str)>| COp::S(Op::Migrate { who: who.into(), stored: stored.map(|(a, b)| (a.to_string(), b.to_string())) });
+        // public sale, per-address limit 2
+        v.push(Case {
+            tag: format!("corpus:migrate-at-public-limit:{}", var.name),
+            variant,
+            num_tokens: 10,
+            pal: 2,
+            price: PUB_PRICE,
+            start_in: START,
+            end_in: if variant >= 6 { Some(6000) } else { None },
+            unlimited: false,
+            init_wl: None,
+            ops: vec![
+                mig(CREATOR, Some(("@own", "3.8.9"))),
+                at(START, 0),
+                mint("buyer1", PUB_PRICE),
+                mint("buyer1", PUB_PRICE),
+                mint("buyer1", PUB_PRICE),                      // at the limit: refused
+                mig(CREATOR, Some(("@own", "3.8.9"))),
+                mint("buyer1", PUB_PRICE),                      // still refused
+                mig(CREATOR, None),
+                mig(STRANGER, Some(("@own", "3.0.0"))),
+                mint("buyer1", PUB_PRICE),
+                mint("buyer2", PUB_PRICE),
+                mig(CREATOR, Some(("@own", "3.9.0"))),
+                mint("buyer2", PUB_PRICE),
+                mint("buyer2", PUB_PRICE),                      // refused
+                mig(CREATOR, Some(("@own", "99.0.0"))),
+                mig(CREATOR, Some(("crates.io:something-else", "3.0.0"))),
+                mint("buyer2", PUB_PRICE),
+            ],
+        });
+        // whitelist phase, entitlement 1 (flex: the member's own count 1), then the public phase
+        if !var.merkle || !var.oe {
+            let kind = if var.flex { "flex" } else { "plain" };
+            v.push(Case {
+                tag: format!("corpus:migrate-at-whitelist-limit:{}", var.name),
+                variant,
+                num_tokens: 10,
+                pal: 1,
+                price: PUB_PRICE,
+                start_in: START,
+                end_in: if variant >= 6 { Some(6000) } else { None },
+                unlimited: false,
+                init_wl: Some(InitWl { kind: kind.into(), windows: vec![(1000, 2000)], limit: 1, cap: None, flex_count: 1, members: vec!["buyer1".into(), "buyer2".into()], price: WL_PRICE }),
+                ops: vec![
+                    at(1000, 0),
+                    mint("buyer1", WL_PRICE),
+                    mint("buyer1", WL_PRICE),                   // entitlement used: refused
+                    mig(CREATOR, Some(("@own", "3.8.9"))),
+                    mint("buyer1", WL_PRICE),                   // still refused
+                    mint("buyer2", WL_PRICE),
+                    mig(CREATOR, Some(("@own", "3.10.0"))),
+                    mint("buyer2", WL_PRICE),                   // refused
+                    at(START, 0),
+                    mint("buyer1", PUB_PRICE),
+                    mig(CREATOR, Some(("@own", "2.0.0"))),
+                    mint("buyer1", PUB_PRICE),                  // per-address limit 1: refused (flex: counted separately)
+                    mint("buyer3", PUB_PRICE),
+                    mint("buyer3", PUB_PRICE),
+                ],
+            });
+        }
+    }
     // --- the repaired defect C03:merkle-unproven-allocation, both Merkle variants ---
     for variant in [4usize, 5, 8] {
         // plain whitelist, per_address_limit 1: Mint{proof_hashes: None, allocation: Some(5)} four times => exactly one
